@@ -105,3 +105,63 @@ package funcs
 //@ ensures[C11] isPt(ctx.input) && ncalls(getKeyName) == 1 && callres(getKeyName, 0, 1) == nil ==> othersKept(thePt(ctx.input), ptKey(callres(getKeyName, 0, 0)))
 //@ ensures[C11] ncalls((*Task).GetKeyConv2Str) == 1 && callres((*Task).GetKeyConv2Str, 0, 1) != nil ==> result == nil && ncalls(addKey2PtWithVal) == 0
 //@ ensures[C11] ncalls((*Task).GetKeyConv2Str) == 1 && callres((*Task).GetKeyConv2Str, 0, 1) == nil ==> ncalls(strings.ToUpper) == 1 && callarg(strings.ToUpper, 0, 0) == callres((*Task).GetKeyConv2Str, 0, 0) && ncalls(addKey2PtWithVal) == 1 && callarg(addKey2PtWithVal, 0, 1) == callres(getKeyName, 0, 0) && typeis(callarg(addKey2PtWithVal, 0, 2), string) && callarg(addKey2PtWithVal, 0, 2).(string) == callres(strings.ToUpper, 0, 0) && callarg(addKey2PtWithVal, 0, 3) == ast.String
+
+// rename(to, from): one call of the point's Rename with `_` resolved (its effect: input.Rename)
+//@ func Rename
+//@ ensures[C11] result == nil ==> ncalls(renamePtKey) == 1 && callarg(renamePtKey, 0, 1) == callres(getKeyName, 0, 0) && callarg(renamePtKey, 0, 2) == callres(getKeyName, 1, 0)
+//@ ensures[C11] ncalls(getKeyName) <= 2 && (ncalls(getKeyName) >= 1 ==> callarg(getKeyName, 0, 0) == funcExpr.Param[0]) && (ncalls(getKeyName) == 2 ==> callarg(getKeyName, 1, 0) == funcExpr.Param[1])
+
+// set_measurement(v [, true]): a string value becomes the measurement; with `true` and a key
+// argument the key is dropped afterwards; any other value type changes nothing
+//@ func SetMeasurement
+//@ ensures[C11] result == nil
+//@ ensures[C11] ncalls(RunStmt) == 1 && (callres(RunStmt, 0, 2) != nil || callres(RunStmt, 0, 1) != ast.String) ==> ncalls(setMeasurement) == 0
+//@ ensures[C11] ncalls(RunStmt) == 1 && callres(RunStmt, 0, 2) == nil && callres(RunStmt, 0, 1) == ast.String && typeis(callres(RunStmt, 0, 0), string) ==> ncalls(setMeasurement) == 1 && callarg(setMeasurement, 0, 1) == callres(RunStmt, 0, 0).(string)
+//@ ensures[C11] callres(RunStmt, 0, 2) != nil ==> ncalls(deletePtKey) == 0
+//@ ensures[C11] ncalls(deletePtKey) <= 1 && (ncalls(deletePtKey) == 1 ==> len(funcExpr.Param) == 2 && funcExpr.Param[1].NodeType == ast.TypeBoolLiteral && funcExpr.Param[1].elem.(*ast.BoolLiteral).Val && callarg(deletePtKey, 0, 1) == callres(getKeyName, 0, 0))
+
+// len(v): the length of a map, list or string, 0 for everything else; the point is not the destination
+//@ func Len
+//@ ensures[C11] result == nil ==> ncalls((*PlReg).ReturnAppend) == 1 && callarg((*PlReg).ReturnAppend, 0, 2) == ast.Int && typeis(callarg((*PlReg).ReturnAppend, 0, 1), int64)
+//@ ensures[C11] result == nil && callres(RunStmt, 0, 1) == ast.List ==> callarg((*PlReg).ReturnAppend, 0, 1).(int64) == int64(len(callres(RunStmt, 0, 0).([]any)))
+//@ ensures[C11] result == nil && callres(RunStmt, 0, 1) == ast.String ==> callarg((*PlReg).ReturnAppend, 0, 1).(int64) == int64(len(callres(RunStmt, 0, 0).(string)))
+//@ ensures[C11] result == nil && callres(RunStmt, 0, 1) != ast.List && callres(RunStmt, 0, 1) != ast.String && callres(RunStmt, 0, 1) != ast.Map ==> callarg((*PlReg).ReturnAppend, 0, 1).(int64) == 0
+//@ ensures[C11] result == nil <==> callres(RunStmt, 0, 2) == nil
+
+// the string transformers: subject text in, library result out, under the same key, as a string;
+// an absent subject is a silent no-op
+//@ spec strOut(k string, v string) bool = ncalls(addKey2PtWithVal) == 1 && callarg(addKey2PtWithVal, 0, 1) == k && typeis(callarg(addKey2PtWithVal, 0, 2), string) && callarg(addKey2PtWithVal, 0, 2).(string) == v && callarg(addKey2PtWithVal, 0, 3) == ast.String && callarg(addKey2PtWithVal, 0, 4) == input.KindPtDefault
+//@ spec noSubject() bool = ncalls((*Task).GetKeyConv2Str) == 1 && callres((*Task).GetKeyConv2Str, 0, 1) != nil
+//@ spec subject() string = callres((*Task).GetKeyConv2Str, 0, 0)
+
+//@ func Trim
+//@ ensures[C11] noSubject() ==> result == nil && ncalls(addKey2PtWithVal) == 0
+//@ ensures[C11] result == nil && ncalls((*Task).GetKeyConv2Str) == 1 && !noSubject() && ncalls(strings.TrimSpace) == 1 ==> callarg(strings.TrimSpace, 0, 0) == subject() && strOut(callres(getKeyName, 0, 0), callres(strings.TrimSpace, 0, 0))
+//@ ensures[C11] result == nil && ncalls((*Task).GetKeyConv2Str) == 1 && !noSubject() && ncalls(strings.Trim) == 1 ==> callarg(strings.Trim, 0, 0) == subject() && callarg(strings.Trim, 0, 1) == funcExpr.Param[1].elem.(*ast.StringLiteral).Val && strOut(callres(getKeyName, 0, 0), callres(strings.Trim, 0, 0))
+//@ ensures[C11] result == nil && ncalls((*Task).GetKeyConv2Str) == 1 && !noSubject() ==> ncalls(strings.TrimSpace) + ncalls(strings.Trim) == 1
+
+//@ func Replace
+//@ ensures[C11] ncalls(regexp.Compile) == 1 && callres(regexp.Compile, 0, 1) != nil ==> result != nil && ncalls(addKey2PtWithVal) == 0
+//@ ensures[C11] noSubject() ==> result == nil && ncalls(addKey2PtWithVal) == 0
+//@ ensures[C11] result == nil && ncalls((*Task).GetKeyConv2Str) == 1 && !noSubject() ==> ncalls((*regexp.Regexp).ReplaceAllString) == 1 && callarg((*regexp.Regexp).ReplaceAllString, 0, 0) == callres(regexp.Compile, 0, 0) && callarg((*regexp.Regexp).ReplaceAllString, 0, 1) == subject() && callarg((*regexp.Regexp).ReplaceAllString, 0, 2) == funcExpr.Param[2].elem.(*ast.StringLiteral).Val && strOut(callres(getKeyName, 0, 0), callres((*regexp.Regexp).ReplaceAllString, 0, 0))
+
+//@ func URLDecode
+//@ ensures[C11] noSubject() ==> result == nil && ncalls(addKey2PtWithVal) == 0
+//@ ensures[C11] ncalls(UrldecodeHandle) == 1 ==> callarg(UrldecodeHandle, 0, 0) == subject()
+// an undecodable text is a script error and writes nothing
+//@ ensures[C11] ncalls(UrldecodeHandle) == 1 && callres(UrldecodeHandle, 0, 1) != nil ==> result != nil && ncalls(addKey2PtWithVal) == 0
+//@ ensures[C11] ncalls(UrldecodeHandle) == 1 && callres(UrldecodeHandle, 0, 1) == nil ==> strOut(callres(getKeyName, 0, 0), callres(UrldecodeHandle, 0, 0))
+
+// strfmt(k, fmt, args...): the formatted text goes under k; a failing argument is an error, not text
+//@ func Strfmt
+//@ ensures[C11] result == nil ==> (forall j mathint :: 0 <= j && j < ncalls(RunStmt) ==> callres(RunStmt, j, 2) == nil)
+//@ ensures[C11] result == nil && ncalls(fmt.Sprintf) >= 1 ==> strOut(callres(getKeyName, 0, 0), callres(fmt.Sprintf, ncalls(fmt.Sprintf) - 1, 0))
+//@ loop 1
+//@ invariant[C11] forall j mathint :: 0 <= j && j < ncalls(RunStmt) ==> callres(RunStmt, j, 2) == nil
+//@ invariant[C11] ncalls(addKey2PtWithVal) == 0
+
+// load_json(text): the decoded value is the return value; invalid JSON is a script error
+//@ func LoadJSON
+//@ ensures[C11] ncalls(json.Unmarshal) == 1 && callres(json.Unmarshal, 0, 0) != nil ==> result != nil && ncalls((*PlReg).ReturnAppend) == 0
+//@ ensures[C11] result == nil ==> ncalls(json.Unmarshal) == 1 && callres(json.Unmarshal, 0, 0) == nil && ncalls((*PlReg).ReturnAppend) == 1
+//@ ensures[C11] callres(RunStmt, 0, 2) == nil && callres(RunStmt, 0, 1) != ast.String ==> result != nil
